@@ -256,11 +256,33 @@ class Gen:
         return tuple((k, self.term(depth, **kw)) for k in keys)
 
     def mutate(self, t):
-        """replace one random subterm by a fresh small term"""
+        """replace one random subterm by a fresh small term, or (40%) change one number in place
+        (variable / binder / symbol / metavariable id / substitution variable) keeping the shape"""
         r = self.rng
         paths = list(self._paths(t, ()))
+        if r.random() < 0.4:
+            r.shuffle(paths)
+            for path in paths:
+                sub = self._get(t, path)
+                k = sub[0]
+                if k in 'esxm':
+                    new = (k, (sub[1] + 1 + r.randrange(self.nvars - 1)) % self.nvars if self.nvars > 1 else sub[1] + 1) + sub[2:]
+                elif k == 'y':
+                    new = ('y', sub[1] + 1)
+                elif k == 'v':
+                    new = ('v', (sub[1] + 1) % (self.nmv + 1)) + sub[2:]
+                elif k in 'ES':
+                    new = (k, sub[1], (sub[2] + 1) % max(2, self.nvars), sub[3])
+                else:
+                    continue
+                return self._replace(t, path, new)
         path = r.choice(paths)
         return self._replace(t, path, self.term(1))
+
+    def _get(self, t, path):
+        for h in path:
+            t = t[2][h[1]][1] if isinstance(h, tuple) else t[h]
+        return t
 
     def _paths(self, t, pre):
         yield pre
